@@ -6,6 +6,7 @@ set_option linter.unusedSimpArgs false
 set_option linter.unusedVariables false
 
 namespace Rig.C11
+open Rig.Gen.Links
 
 theorem mem_hexSteps {d : P2} (h : d ∈ hexSteps) :
     d = (1, 0) ∨ d = (1, 1) ∨ d = (0, 1) ∨ d = (-1, 0) ∨ d = (-1, -1) ∨ d = (0, -1) := by
@@ -895,5 +896,217 @@ theorem hexDist_self (c : P2) : hexDist c c = 0 := by simp [hexDist, hexLen]
 theorem hexDist_eq_zero (c p : P2) (h : hexDist c p = 0) : p = c := by
   unfold hexDist hexLen at h
   ext <;> omega
+
+/-! ### the executable graph search is the graph distance -/
+
+theorem mem_insertAll (acc l : List P2) (p : P2) : p ∈ insertAll acc l ↔ p ∈ acc ∨ p ∈ l := by
+  induction l generalizing acc with
+  | nil => simp [insertAll]
+  | cons q t ih =>
+    simp only [insertAll]
+    split
+    · rename_i hq
+      rw [ih]
+      have : q ∈ acc := by simpa using hq
+      constructor
+      · rintro (h | h)
+        · exact .inl h
+        · exact .inr (List.mem_cons_of_mem _ h)
+      · rintro (h | h)
+        · exact .inl h
+        · rcases List.mem_cons.1 h with rfl | h
+          · exact .inl this
+          · exact .inr h
+    · rw [ih]
+      simp only [List.mem_append, List.mem_singleton, List.mem_cons, List.not_mem_nil, or_false]
+      constructor
+      · rintro ((h | h) | h)
+        · exact .inl h
+        · exact .inr (.inl h)
+        · exact .inr (.inr h)
+      · rintro (h | h | h)
+        · exact .inl (.inl h)
+        · exact .inl (.inr h)
+        · exact .inr h
+
+theorem mem_expand (w h : Option Int) (l : List P2) (q : P2) :
+    q ∈ expand w h l ↔ ∃ p, p ∈ l ∧ ∃ d, d ∈ hexSteps ∧ q = stepTo w h p d := by
+  simp only [expand, List.mem_flatMap, List.mem_map]
+  constructor
+  · rintro ⟨p, hp, d, hd, rfl⟩; exact ⟨p, hp, d, hd, rfl⟩
+  · rintro ⟨p, hp, d, hd, rfl⟩; exact ⟨p, hp, d, hd, rfl⟩
+
+theorem mem_ballLe (w h : Option Int) (a b : P2) (n : Nat) :
+    b ∈ ballLe w h a n ↔ ∃ m, m ≤ n ∧ Reach w h m a b := by
+  induction n generalizing b with
+  | zero =>
+    simp only [ballLe, List.mem_singleton]
+    constructor
+    · rintro rfl; exact ⟨0, Nat.le_refl 0, Reach.refl _⟩
+    · rintro ⟨m, hm, r⟩
+      have : m = 0 := by omega
+      subst this
+      cases r; rfl
+  | succ n ih =>
+    simp only [ballLe, grow, mem_insertAll, mem_expand]
+    constructor
+    · rintro (hb | ⟨p, hp, d, hd, rfl⟩)
+      · obtain ⟨m, hm, r⟩ := (ih b).1 hb
+        exact ⟨m, by omega, r⟩
+      · obtain ⟨m, hm, r⟩ := (ih p).1 hp
+        exact ⟨m + 1, by omega, Reach.step d r hd⟩
+    · rintro ⟨m, hm, r⟩
+      by_cases hmn : m ≤ n
+      · exact .inl ((ih b).2 ⟨m, hmn, r⟩)
+      · have : m = n + 1 := by omega
+        subst this
+        cases r with
+        | step d r' hd => exact .inr ⟨_, (ih _).2 ⟨n, Nat.le_refl n, r'⟩, d, hd, rfl⟩
+
+/-- the decidable distance test used as oracle is exactly `IsDist` -/
+theorem distIs_iff (w h : Option Int) (a b : P2) (n : Nat) :
+    distIs w h a b n = true ↔ IsDist w h a b n := by
+  simp only [distIs, Bool.and_eq_true, Bool.or_eq_true, List.contains_iff_mem, beq_iff_eq,
+    Bool.not_eq_true', IsDist]
+  have hc : ∀ k, (ballLe w h a k).contains b = false ↔ ¬ b ∈ ballLe w h a k := by
+    intro k; rw [← List.contains_iff_mem]; simp
+  rw [hc, mem_ballLe, mem_ballLe]
+  constructor
+  · rintro ⟨⟨m, hm, r⟩, hmin⟩
+    have hlow : ∀ m', Reach w h m' a b → n ≤ m' := by
+      intro m' r'
+      rcases hmin with h0 | hnot
+      · omega
+      · by_cases hh : n ≤ m'
+        · exact hh
+        · exact absurd ⟨m', by omega, r'⟩ hnot
+    have : m = n := by have := hlow m r; omega
+    subst this
+    exact ⟨r, hlow⟩
+  · rintro ⟨r, hlow⟩
+    refine ⟨⟨n, Nat.le_refl n, r⟩, ?_⟩
+    by_cases h0 : n = 0
+    · exact .inl h0
+    · right
+      rintro ⟨m, hm, r'⟩
+      have := hlow m r'
+      omega
+
+theorem ballsFrom_levelOf (w h : Option Int) (a p : P2) (n : Nat) : ∀ (k i r : Nat),
+    levelOf p (ballsFrom w h n (ballLe w h a k)) i = some r →
+    ∃ j, r = i + j ∧ p ∈ ballLe w h a (k + j) ∧ ∀ j', j' < j → ¬ p ∈ ballLe w h a (k + j') := by
+  induction n with
+  | zero =>
+    intro k i r hr
+    simp only [ballsFrom, levelOf] at hr
+    split at hr
+    · rename_i hc
+      cases hr
+      exact ⟨0, rfl, by simpa using hc, by intro j' hj; omega⟩
+    · cases hr
+  | succ n ih =>
+    intro k i r hr
+    simp only [ballsFrom, levelOf] at hr
+    split at hr
+    · rename_i hc
+      cases hr
+      exact ⟨0, rfl, by simpa using hc, by intro j' hj; omega⟩
+    · rename_i hc
+      have hg : grow w h (ballLe w h a k) = ballLe w h a (k + 1) := rfl
+      rw [hg] at hr
+      obtain ⟨j, hj1, hj2, hj3⟩ := ih (k + 1) (i + 1) r hr
+      refine ⟨j + 1, by omega, by rw [show k + (j + 1) = k + 1 + j by omega]; exact hj2, ?_⟩
+      intro j' hj'
+      cases j' with
+      | zero => simpa using hc
+      | succ j' =>
+        rw [show k + (j' + 1) = k + 1 + j' by omega]
+        exact hj3 j' (by omega)
+
+/-- **Oracle soundness.** Whatever the graph search of the driver (`spec_dists`) reports for a chip
+is its graph distance. -/
+theorem levelOf_isDist (w h : Option Int) (a p : P2) (n r : Nat)
+    (hr : levelOf p (ballsFrom w h n [a]) 0 = some r) : IsDist w h a p r := by
+  obtain ⟨j, hj1, hj2, hj3⟩ := ballsFrom_levelOf w h a p n 0 0 r hr
+  have : r = j := by omega
+  subst this
+  rw [← distIs_iff]
+  simp only [distIs, Bool.and_eq_true, Bool.or_eq_true, beq_iff_eq, Bool.not_eq_true']
+  refine ⟨by simpa using hj2, ?_⟩
+  by_cases h0 : r = 0
+  · exact .inl h0
+  · right
+    have := hj3 (r - 1) (by omega)
+    simpa using this
+
+/-! ### links -/
+
+def normWrap (x : Int) : Int := if x.natAbs > 1 then (if x > 0 then -1 else 1) else x
+
+theorem fromVector_norm (x y : Int) : fromVector x y = lookupDir (normWrap x, normWrap y) := rfl
+
+theorem normWrap_step (a d w : Int) (ha : 0 ≤ a) (haw : a < w) (hw : 3 ≤ w) (hd : d = -1 ∨ d = 0 ∨ d = 1) :
+    normWrap ((a + d) % w - a) = d := by
+  rcases hd with rfl | rfl | rfl
+  · by_cases h0 : a = 0
+    · subst h0
+      have : (0 + -1) % w = w - 1 := by
+        have := Int.add_mul_emod_self_left (-1) w 1
+        rw [Int.mul_one] at this
+        rw [show (0 : Int) + -1 = -1 by rfl, ← this, Int.emod_eq_of_lt (by omega) (by omega)]; omega
+      rw [this]; simp only [normWrap]; split <;> (try split) <;> omega
+    · rw [Int.emod_eq_of_lt (by omega) (by omega)]
+      simp only [normWrap]; split <;> (try split) <;> omega
+  · rw [Int.add_zero, Int.emod_eq_of_lt ha haw]
+    simp [normWrap]
+  · by_cases h0 : a + 1 = w
+    · rw [h0, Int.emod_self]
+      simp only [normWrap]; split <;> (try split) <;> omega
+    · rw [Int.emod_eq_of_lt (by omega) (by omega)]
+      simp only [normWrap]; split <;> (try split) <;> omega
+
+theorem specVec_range {l : Nat} {d : P2} (h : specVec l = some d) :
+    (d.1 = -1 ∨ d.1 = 0 ∨ d.1 = 1) ∧ (d.2 = -1 ∨ d.2 = 0 ∨ d.2 = 1) ∧ lookupDir d = some l := by
+  match l, h with
+  | 0, h | 1, h | 2, h | 3, h | 4, h | 5, h => simp [specVec] at h; subst h; decide
+  | (n + 6), h => simp [specVec] at h
+
+theorem allLinks_eq : allLinks = [0, 1, 2, 3, 4, 5] := by decide
+
+theorem toVector_spec : ∀ l ∈ [0, 1, 2, 3, 4, 5], toVector l = specVec l ∧ (specVec l).isSome = true := by decide
+
+def lbFilter (a b : P2) (m : Mach) (l : Nat) : Bool :=
+  match specVec l with
+  | some d => (stepTo (some m.w) (some m.h) a d == b) && m.hasLink a l
+  | none => false
+
+theorem lb_foldr (a b : P2) (m : Mach) (ls : List Nat)
+    (hall : ∀ l ∈ ls, toVector l = specVec l ∧ (specVec l).isSome = true) :
+    ls.foldr (fun l acc =>
+      match toVector l, acc with
+      | some d, some acc =>
+        if pyMod (a.1 + d.1) m.w = b.1 ∧ pyMod (a.2 + d.2) m.h = b.2 ∧ m.hasLink a l = true
+        then some (l :: acc) else some acc
+      | _, _ => none) (some []) = some (ls.filter (lbFilter a b m)) := by
+  induction ls with
+  | nil => rfl
+  | cons l t ih =>
+    have ht := ih (fun l hl => hall l (List.mem_cons_of_mem _ hl))
+    obtain ⟨h1, h2⟩ := hall l (List.mem_cons_self ..)
+    rw [List.foldr_cons, ht, h1]
+    cases hs : specVec l with
+    | none => simp [hs] at h2
+    | some d =>
+      simp only [List.filter_cons, lbFilter, hs, stepTo, wrap]
+      obtain ⟨bx, by'⟩ := b
+      by_cases c1 : pyMod (a.1 + d.1) m.w = bx <;> by_cases c2 : pyMod (a.2 + d.2) m.h = by' <;>
+        cases hh : m.hasLink a l <;> simp [c1, c2, hh]
+
+theorem linksBetween_spec (a b : P2) (m : Mach) :
+    linksBetween a b m = some (specLinksBetween a b m) := by
+  have := lb_foldr a b m [0, 1, 2, 3, 4, 5] toVector_spec
+  unfold linksBetween specLinksBetween
+  rw [allLinks_eq]
+  exact this
 
 end Rig.C11
